@@ -101,6 +101,7 @@ impl Check {
         let seed = std::env::var("VERIF_SEED").ok().and_then(|s| s.parse().ok()).unwrap_or(0);
         let start = Instant::now();
         Self::install_hang_handler(prop, tier, seed, start);
+        b_start_monitor(prop, tier, seed, start);
         Check {
             prop,
             tier,
@@ -414,4 +415,129 @@ impl Check {
 
 pub fn viol_finding(v: &Violation, replay: Value) -> Finding {
     Finding { clause: v.clause.clone(), witness: v.witness.clone(), detail: v.detail.clone(), replay }
+}
+
+// ---------------------------------------------------------------------------------------------------------------
+// Engine B guard: a library call (decode / encode / match) that never returns.
+// Engine B drives pure functions from plain worker threads; there is no runtime whose poll callback could beat. Each
+// worker announces the input it is about to hand to the library; a monitor thread reports the input of a worker
+// that has been inside one call for the watchdog limit while burning CPU (an endless loop), as clause `never-returns`.
+// ---------------------------------------------------------------------------------------------------------------
+pub struct BSlot {
+    seq: std::sync::atomic::AtomicU64,
+    busy: std::sync::atomic::AtomicBool,
+    cpu_clock: libc::clockid_t,
+    // (label, input) of the call in progress as raw (pointer, length) pairs: written by the owning thread with plain
+    // stores, read by the monitor only after the sequence number has stood still for the whole watchdog limit with the
+    // slot busy - the owner is then stuck inside the announced region, where both referents are alive and unchanged
+    label: (std::sync::atomic::AtomicUsize, std::sync::atomic::AtomicUsize),
+    input: (std::sync::atomic::AtomicUsize, std::sync::atomic::AtomicUsize),
+}
+static BSLOTS: std::sync::Mutex<Vec<std::sync::Arc<BSlot>>> = std::sync::Mutex::new(Vec::new());
+static BINFO: std::sync::OnceLock<(&'static str, Tier, i64, Instant)> = std::sync::OnceLock::new();
+thread_local! {
+    static BSLOT: std::sync::Arc<BSlot> = {
+        let mut cid: libc::clockid_t = 0;
+        if unsafe { libc::pthread_getcpuclockid(libc::pthread_self(), &mut cid) } != 0 {
+            cid = -1;
+        }
+        let s = std::sync::Arc::new(BSlot { seq: 0.into(), busy: false.into(), cpu_clock: cid, label: (0.into(), 0.into()), input: (0.into(), 0.into()) });
+        BSLOTS.lock().unwrap().push(s.clone());
+        s
+    };
+}
+
+/// Announce that `bytes` are about to be handed to the library function `what` on this thread. `bytes` must stay
+/// alive and unchanged until `b_leave()` (callers pass the immutable input of the whole evaluation).
+#[inline]
+pub fn b_enter(what: &'static str, bytes: &[u8]) {
+    use std::sync::atomic::Ordering::Relaxed;
+    BSLOT.with(|s| {
+        s.label.0.store(what.as_ptr() as usize, Relaxed);
+        s.label.1.store(what.len(), Relaxed);
+        s.input.0.store(bytes.as_ptr() as usize, Relaxed);
+        s.input.1.store(bytes.len().min(512), Relaxed);
+        s.seq.fetch_add(1, Relaxed);
+        s.busy.store(true, Relaxed);
+    });
+}
+
+/// The call announced by `b_enter` has returned.
+#[inline]
+pub fn b_leave() {
+    use std::sync::atomic::Ordering::Relaxed;
+    BSLOT.with(|s| {
+        s.seq.fetch_add(1, Relaxed);
+        s.busy.store(false, Relaxed);
+    });
+}
+
+fn b_cpu(cid: libc::clockid_t) -> Option<f64> {
+    if cid == -1 {
+        return None;
+    }
+    let mut ts = libc::timespec { tv_sec: 0, tv_nsec: 0 };
+    if unsafe { libc::clock_gettime(cid, &mut ts) } == 0 { Some(ts.tv_sec as f64 + ts.tv_nsec as f64 / 1e9) } else { None }
+}
+
+fn b_monitor() {
+    use std::sync::atomic::Ordering::Relaxed;
+    let limit: u64 = std::env::var("VERIF_HANG_SECS").ok().and_then(|s| s.parse().ok()).unwrap_or(30);
+    let mut last: std::collections::HashMap<usize, (u64, Instant, Option<f64>)> = std::collections::HashMap::new();
+    loop {
+        std::thread::sleep(Duration::from_millis(1000));
+        let slots: Vec<std::sync::Arc<BSlot>> = BSLOTS.lock().unwrap().clone();
+        for s in &slots {
+            let key = std::sync::Arc::as_ptr(s) as usize;
+            let seq = s.seq.load(Relaxed);
+            let cpu = b_cpu(s.cpu_clock);
+            let e = last.entry(key).or_insert((seq, Instant::now(), cpu));
+            if !s.busy.load(Relaxed) || seq != e.0 {
+                *e = (seq, Instant::now(), cpu);
+                continue;
+            }
+            let burnt = match (cpu, e.2) {
+                (Some(a), Some(b)) => a - b,
+                _ => f64::MAX,
+            };
+            if e.1.elapsed().as_secs() < limit || burnt < limit as f64 * 2.0 / 3.0 {
+                continue;
+            }
+            let Some((prop, tier, seed, start)) = BINFO.get().copied() else { continue };
+            let (what, bytes): (String, Vec<u8>) = unsafe {
+                let l = std::slice::from_raw_parts(s.label.0.load(Relaxed) as *const u8, s.label.1.load(Relaxed));
+                let b = std::slice::from_raw_parts(s.input.0.load(Relaxed) as *const u8, s.input.1.load(Relaxed));
+                (String::from_utf8_lossy(l).into_owned(), b.to_vec())
+            };
+            let root = verif_root();
+            let dir = root.join("replays").join(prop);
+            let _ = std::fs::create_dir_all(&dir);
+            let path = dir.join("never-returns.json");
+            let hex: String = bytes.iter().map(|b| format!("{b:02x}")).collect();
+            let detail = format!("the library call `{what}` did not return within {limit} s while its thread kept a CPU busy (an endless loop) on input {hex}");
+            let body = json!({"property": prop, "tier": tier.name(), "clause": "never-returns", "witness": what, "detail": detail,
+                "replay": {"engine": "codec", "call": what, "hex_full": hex, "note": "handing these bytes to the named library function does not return"}});
+            let _ = std::fs::write(&path, serde_json::to_string_pretty(&body).unwrap());
+            let ev = json!({"property_id": prop, "tier": tier.name(), "seed": seed, "level": "model_checking",
+                "coverage": {"evaluations": 0, "distinct_nontrivial": 0, "rule": "ABORTED (never-returns): a library call did not return on the input written to the replay file",
+                    "samples": [hex], "states": 1, "transitions": 1, "traces_validated_against_impl": 0, "exhaustive": false, "caps_hit": ["aborted: never-returns"]},
+                "assumptions": [], "wall_s": start.elapsed().as_secs_f64(), "violations": 1});
+            let evdir = root.join("evidence");
+            let _ = std::fs::create_dir_all(&evdir);
+            let _ = std::fs::write(evdir.join(format!("{prop}.json")), serde_json::to_string_pretty(&ev).unwrap());
+            println!("VIOLATION property={prop} replay={}", path.display());
+            println!("  clause=never-returns witness={what}");
+            println!("  {detail}");
+            println!("{prop} {}: exhaustive=false unknown_violations=1 (aborted) wall={:.1}s", tier.name(), start.elapsed().as_secs_f64());
+            use std::io::Write;
+            let _ = std::io::stdout().flush();
+            std::process::exit(1);
+        }
+    }
+}
+
+pub fn b_start_monitor(prop: &'static str, tier: Tier, seed: i64, start: Instant) {
+    if BINFO.set((prop, tier, seed, start)).is_ok() {
+        let _ = std::thread::Builder::new().name("b-monitor".into()).spawn(b_monitor);
+    }
 }
